@@ -133,6 +133,18 @@ guard, over the partial `MultiSet`) neither panics nor diverges, and returns `pr
 theorem process_never_panics_or_diverges (q : Json) : processO q = .ok (process q) :=
   processO_eq q
 
+/-- The guard is what makes it total (the defect fixed by commit 90097cd, kept visible in the model):
+the enumeration step *without* the guard diverges on a section without array-valued field … -/
+theorem unguarded_no_axis_diverges (initial : Json) :
+    expandO { keys := [], options := [], initial := initial } = .diverges :=
+  collectMap_no_sets_diverges _ initial rfl _
+
+/-- … and panics on a section with an empty array -/
+theorem unguarded_empty_axis_panics (p : Plan) (h : [] ∈ p.options) :
+    expandO p = .panic "multiset/sets-index" := by
+  have : ([] : List Nat) ∈ p.indices := List.mem_map.mpr ⟨[], h, rfl⟩
+  exact collectMap_empty_set_panics _ _ this _
+
 /-- no grid section (in particular: not an object) ⇒ the query passes through unchanged -/
 theorem passthrough_without_grid_section (q : Json) (h : q.get? gridKey = none) :
     process q = .ok q := by
